@@ -2,6 +2,7 @@ package main
 
 import (
 	"fmt"
+	"go/token"
 	"go/types"
 	"strings"
 
@@ -11,7 +12,7 @@ import (
 var keepLabels = []string{"keepmask", "values", "opt:DedupValue"}
 
 func checkC02(p *Program, r *Report) {
-	r.Explanation = "Decided for all key/value lists: the build-side mechanism RangeGet rests on — branch positions are computed over all keys of a node's range and only labels are filtered by the keep mask. In the labelled flow analysis of the builder the bit position handed to bmtree.PathsOf/PathOf (where labels are cut and children are split) carries no keep-mask/value/DedupValue label given the node's key range (work-list barrier), the same SSA value is the prefix end recorded for the node, and sigbits.New receives exactly the caller's key slice (not a filtered copy). On the query side index.SlimIndex.RangeGet obtains its offset from (*SlimTrie).RangeGet, and RangeGet/Search share one three-way descent."
+	r.Explanation = "Decided for all key/value lists: the build-side mechanism RangeGet rests on — branch positions are computed over all keys of a node's range and only labels are filtered by the keep mask. In the labelled flow analysis of the builder the bit position handed to bmtree.PathsOf/PathOf (where labels are cut and children are split) carries no keep-mask/value/DedupValue label given the node's key range (work-list barrier), the same SSA value is the prefix end recorded for the node, and sigbits.New receives exactly the caller's key slice (not a filtered copy). On the query side index.SlimIndex.RangeGet obtains its offset from (*SlimTrie).RangeGet, and RangeGet/Search share one three-way descent. (keepmask) with de-duplication on, the keep mask is filled only with the constant true or, for every index from 1 in steps of 1 and unconditionally, with the comparison of values[i-1] and values[i]: values are not sorted, so no method that skips adjacent pairs can find the first record of every run."
 	r.NotCovered = "The three-way search itself (left-neighbour selection, right-most descent) depends on rank values at run time."
 	r.Trusted = []string{"go/ssa; pure-function summaries for openacid/low"}
 	bf := newBuilderFlow(p)
@@ -106,6 +107,7 @@ func checkC02(p *Program, r *Report) {
 
 	checkRangeRouting(p, r)
 	checkVLenWidth(p, r, "C02.vlen-width")
+	checkKeepMask(p, r)
 }
 
 // checkRangeRouting: index.RangeGet -> SlimTrie.RangeGet; RangeGet and Search
@@ -177,3 +179,142 @@ func checkRangeRouting(p *Program, r *Report) {
 }
 
 func init() { checks["C02"] = checkC02 }
+
+// checkKeepMask (C02.keepmask): with de-duplication on, record i is retained
+// iff its value differs from record i-1's. Values are not sorted, so this can
+// only be decided by looking at every adjacent pair: in the function that
+// builds the keep mask (the []bool it returns, from the encoded values) every
+// store into the mask is the constant true, or — in a loop whose index runs
+// from 1 by 1 while below the mask's length, unconditionally in the body —
+// the comparison of values[i-1] with values[i]. Any other way of filling the
+// mask (skipping ahead, bisecting a run, comparing non-adjacent records) is
+// reported.
+func checkKeepMask(p *Program, r *Report) {
+	r.Rule("C02.keepmask", "E6+CFG", "the keep mask compares every adjacent pair of values", 1)
+	var KF *ssa.Function
+	for _, f := range p.FuncsOf(triePath) {
+		if !trieScope(f) || f.Synthetic != "" || f.Signature.Results().Len() != 1 {
+			continue
+		}
+		if sl, ok := f.Signature.Results().At(0).Type().Underlying().(*types.Slice); !ok || !isBoolType(sl.Elem()) {
+			continue
+		}
+		for _, prm := range f.Params {
+			if sl, ok := prm.Type().Underlying().(*types.Slice); ok && isByteSlice(sl.Elem()) {
+				KF = f
+			}
+		}
+	}
+	if KF == nil {
+		r.Unk("keep mask builder", "", "no function of package trie builds a []bool from [][]byte values (anchor not found)")
+		return
+	}
+	r.Func(shortFn(KF))
+	construct := "keep mask built by " + shortFn(KF)
+	var valuesPrm *ssa.Parameter
+	for _, prm := range KF.Params {
+		if sl, ok := prm.Type().Underlying().(*types.Slice); ok && isByteSlice(sl.Elem()) {
+			valuesPrm = prm
+		}
+	}
+	e := newEval(p)
+	vname := e.eval(valuesPrm).String()
+	var bad []string
+	nCmp := 0
+	instrsOf(KF, func(b *ssa.BasicBlock, in ssa.Instruction) {
+		st, ok := in.(*ssa.Store)
+		if !ok {
+			return
+		}
+		ia, ok := st.Addr.(*ssa.IndexAddr)
+		if !ok {
+			return
+		}
+		if sl, ok := ia.X.Type().Underlying().(*types.Slice); !ok || !isBoolType(sl.Elem()) {
+			return
+		}
+		if c, ok := constBool(st.Val); ok {
+			if !c {
+				bad = append(bad, "a record is dropped unconditionally at "+p.Pos(st.Pos()))
+			}
+			return
+		}
+		// the comparison of values[i-1] with values[i]
+		I := e.eval(ia.Index)
+		prev := ON("idx", "", S(vname), O("add", I, K(-1))).String()
+		cur := ON("idx", "", S(vname), I).String()
+		t := e.eval(st.Val).String()
+		okShape := false
+		for _, pair := range [][2]string{{prev, cur}, {cur, prev}} {
+			cmpCall := "call:bytes.Compare(" + pair[0] + "," + pair[1] + ")"
+			eqCall := "call:bytes.Equal(" + pair[0] + "," + pair[1] + ")"
+			switch t {
+			case "cmp:!=(" + cmpCall + ",0)", "cmp:!=(0," + cmpCall + ")", "lnot(" + eqCall + ")", "cmp:==(" + eqCall + ",false)", "cmp:!=(" + eqCall + ",true)":
+				okShape = true
+			}
+		}
+		if !okShape {
+			bad = append(bad, "the mask entry stored at "+p.Pos(st.Pos())+" is "+abbreviate(t)+", not the comparison of the record's value with its predecessor's")
+			return
+		}
+		// the index: phi(1, idx+1) at the header of the loop containing the store; loop test idx < len(mask) or n
+		ph, ok := stripConv(ia.Index).(*ssa.Phi)
+		header := loopHeaderOf(b)
+		if !ok || header == nil || ph.Block() != header {
+			bad = append(bad, "the comparison at "+p.Pos(st.Pos())+" is not indexed by the loop variable of its loop")
+			return
+		}
+		okInit, okStep := false, true
+		for i, ed := range ph.Edges {
+			pred := header.Preds[i]
+			if header.Dominates(pred) {
+				bo, ok := stripConv(ed).(*ssa.BinOp)
+				k, isK := int64(0), false
+				if ok {
+					k, isK = constInt(bo.Y)
+				}
+				if !ok || bo.Op != token.ADD || stripConv(bo.X) != ssa.Value(ph) || !isK || k != 1 {
+					okStep = false
+				}
+				continue
+			}
+			if c, ok := constInt(ed); ok && c == 1 {
+				okInit = true
+			}
+		}
+		if !okInit || !okStep {
+			bad = append(bad, "the loop at "+p.Pos(st.Pos())+" does not visit every index from 1 in steps of 1 (some adjacent pairs are never compared)")
+			return
+		}
+		// unconditional in the body: the store's block dominates every latch
+		for i := range ph.Edges {
+			pred := header.Preds[i]
+			if header.Dominates(pred) && !b.Dominates(pred) {
+				bad = append(bad, "the comparison at "+p.Pos(st.Pos())+" is skipped on some iterations")
+				return
+			}
+		}
+		// loop test: idx < bound, where bound is the length the mask was made with
+		iff, ok := lastInstr(header).(*ssa.If)
+		okBound := false
+		if ok {
+			if bo, ok := iff.Cond.(*ssa.BinOp); ok && bo.Op == token.LSS && stripConv(bo.X) == ssa.Value(ph) {
+				if ms, ok := ia.X.(*ssa.MakeSlice); ok && (bo.Y == ms.Len || e.eval(bo.Y).String() == e.eval(ms.Len).String()) {
+					okBound = true
+				}
+				if e.eval(bo.Y).String() == "len("+vname+")" {
+					okBound = true
+				}
+			}
+		}
+		if !okBound {
+			bad = append(bad, "the loop at "+p.Pos(st.Pos())+" is not bounded by the length of the mask")
+			return
+		}
+		nCmp++
+	})
+	if nCmp == 0 && len(bad) == 0 {
+		bad = append(bad, "no store into the mask compares a record's value with its predecessor's")
+	}
+	r.Check(len(bad) == 0, construct, p.Pos(KF.Pos()), "every entry is true or values[i-1] != values[i] for i = 1..n-1, step 1, unconditional", strings.Join(dedupStrings(sortStr(bad)), "; "))
+}
